@@ -47,6 +47,8 @@ PROPS = {
              "all 5 variants, pads 126/190, two-operation histories incl. Shrink", "RemoveEntities batch with several targets (C06 harness); chains deeper than 1"),
     "C09": P("checking callbacks for all 7 built-in event types during every single operation of the C01 step harnesses (both shapes, valid calls): entity alive, is the affected entity, in exactly one row (Filter0 query from inside the callback), composition old (removals) / new (others), values and targets current, lock state as documented; emitted event multiset equals the documented one; batch AddBatch(relation)/RemoveBatch(relation)/RemoveEntities/SetRelationsBatch with symbolic filter: phase (removal events before any change, others after all), once per affected entity, locked",
              "same", "user callbacks that mutate; more than one observer per event type (C08)"),
+    "C19": P("Stats() after shape + one structural operation (plain: new/remove/copy/shrink of every entity; relation: 8 table scenarios incl. target death with swap-removed table lists, recycling, Shrink), with Stats called before / between or not at all: all absolute laws of the statement against the real tables and the model, and incremental == fresh (field-wise, every archetype and table)",
+             "same", "component type name strings; more than 2 operations between Stats calls"),
     "C10": P("every rejected call of the C01/C04 step harnesses (dead entity: never reused and recycled id; duplicate / already present / missing component; dead or recycled relation target; exchange of same component) must panic and leave model, INV and lock state unchanged",
              "same", "batch operations (lock state covered by C07); *Unchecked accessors; typed arities > 2"),
     "C05": P("registered Filter1/Filter2 with FULLY symbolic with/without masks and symbolic relation target (filter or per query) over both shapes: the cached walk/Count equals the model set (= uncached semantics); register/unregister bookkeeping",
